@@ -23,6 +23,11 @@ Batches 4 and 5 (EQU defined by an expression evaluated where it is used, `resol
 numeric; FCC string cut out of the line as written; `orgOK`, `evalSyms` in `assemble`): every statement is unchanged
 and still holds for every input; added `C02_org_symbol_expr_translate`, the evaluated `C02_equ_expression_example` and
 `C02_fcc_as_written_example`, and `C02_fcc_chars_of_line`.
+Batch 8 (symbols, expressions and labels inside FCB / FDB lists, `evalLists` after `fixAll`): every statement is
+unchanged and still holds for every input.  A list statement's final field is `.multiByte hs'` / `.multiWord hs'` with
+`hs'` from `evalElems`: the list has one item per element of the operand text (`Trace.list_count`), every item — a
+literal's digits, the zeros holding a pending element's place, an evaluated element — has 2 resp. 4 digits
+(`evalElems_flatten_length`), so the byte count is the `size` that `translatePseudo` computed from the placeholders.
 -/
 import CoCoVerif.Lemmas.SizeAscii
 import CoCoVerif.Props.C02
@@ -65,6 +70,9 @@ theorem C02_stmt_core {fs : Files} {lines : List Str} {a : Assembly} (h : assemb
   have taddr := tr.addr
   have tfix := tr.hfix
   have tfit := tr.hfit
+  have tlist := tr.hlist
+  have tcount := tr.list_count
+  have tnolist := tr.plain_nolist
   have top : s.operand = tr.o := tr.operand_eq
   have hplain0 := tr.plainShape
   generalize tr.s0 = s0 at *
@@ -73,6 +81,8 @@ theorem C02_stmt_core {fs : Files} {lines : List Str} {a : Assembly} (h : assemb
   generalize tr.s3 = s3 at *
   generalize tr.s4 = s4 at *
   generalize tr.sf = sf at *
+  generalize tr.sw = sw at *
+  generalize tr.x5 = x5 at *
   clear tr
   obtain ⟨_, _, _, _, _, f6, f7, f8⟩ := rowFacts_multi hrow
   have hss := st.addr4_numeric
@@ -102,6 +112,13 @@ theorem C02_stmt_core {fs : Files} {lines : List Str} {a : Assembly} (h : assemb
       cases hv : sf.pkg.additional with
       | numeric n hh m neg =>
         obtain ⟨a', b', w, ha, hb, hw, hsz, _, _, rfl⟩ := fitWidth_numeric tfit (by rw [hrowf]; exact hsk) hv
+        -- (batch 8) the list pass leaves a numeric field alone
+        have esw : s = withAdditional sf (.numeric (fitInt n neg % 2 ^ (4 * w)).toNat (some w) .extended false) := by
+          have := evalList1_numeric st.t x5
+            (s := withAdditional sf (.numeric (fitInt n neg % 2 ^ (4 * w)).toNat (some w) .extended false)) rfl
+          rw [this] at tlist
+          exact (Outcome.ok.inj tlist).symm
+        subst esw
         have hcop : CodeVal sf.pkg.opCode := by rw [ef, e4, e3]; exact psh.op
         have hcpb : CodeVal sf.pkg.postByte := by
           have := hpb3 psh.pb
@@ -121,14 +138,22 @@ theorem C02_stmt_core {fs : Files} {lines : List Str} {a : Assembly} (h : assemb
       | _ => rw [hv] at hnum; cases hnum
     | false =>
       -- the field is not a number: nothing touched it since translation
-      have es : s = sf := fitWidth_nonnumeric tfit hnum
+      have esw : sw = sf := fitWidth_nonnumeric tfit hnum
+      subst esw
       rcases fixOne_field hss tfix with hn | ⟨e5, hn5, ha5, hx5⟩
       · rw [hnum] at hn; cases hn
       · have hneeds : p.needsRes = false := by rw [e4, e3] at hn5; exact hn5
-        have hadd : sf.pkg.additional = p.additional := by rw [e5, e4, e3]; rfl
+        have hadd : sw.pkg.additional = p.additional := by rw [e5, e4, e3]; rfl
+        -- (batch 8) a field that is not a list is left alone by the list pass
+        have keep : (∀ hs, p.additional ≠ .multiByte hs) → (∀ hs, p.additional ≠ .multiWord hs) → s = sw := by
+          intro hb hw
+          have := evalList1_keep st.t x5 (s := sw) (by rw [hadd]; exact hb) (by rw [hadd]; exact hw)
+          rw [this] at tlist
+          exact (Outcome.ok.inj tlist).symm
         rw [hop4] at ha5 hx5
-        rcases psh.fld with ⟨p1, p2, p3⟩ | ⟨p1, p2⟩ | p1 | p1 | ⟨p1, p2, p3, hs', p4, p5, p6⟩
+        rcases psh.fld with ⟨p1, p2, p3⟩ | ⟨p1, p2⟩ | p1 | p1 | ⟨p1, p2, p3, hs', p4, p5, p5k, p6, p7⟩
         · -- no field
+          have es : s = sw := keep (by rw [p1]; intro _ hh; cases hh) (by rw [p1]; intro _ hh; cases hh)
           have hpkg := hfixed hneeds p3
           obtain ⟨_, ev1, m1⟩ := psh.op.emits
           obtain ⟨_, ev2, m2⟩ := psh.pb.emits
@@ -147,25 +172,39 @@ theorem C02_stmt_core {fs : Files} {lines : List Str} {a : Assembly} (h : assemb
           · rw [q] at hx5; cases hx5
         · rw [hadd, p1] at hnum; cases hnum
         · rw [p1] at hneeds; cases hneeds
-        · -- a literal list
+        · -- a list: the list pass (batch 8) replaces every pending element by as many digits as held its place
           have hpkg := hfixed hneeds p3
-          have hm : Emits p.additional (hs'.flatten.length / 2) := by
-            rcases p4 with q | q <;> rw [q]
-            · exact multiByte_emits p5
-            · exact multiWord_emits p5
-          have := stmtBytes_len (s := s) (a := 0) (b := 0) (c := hs'.flatten.length / 2)
-            (by rw [es, e5, hpkg]; show Emits p.opCode 0; rw [p1]; exact none_emits)
-            (by rw [es, e5, hpkg]; show Emits p.postByte 0; rw [p2]; exact none_emits)
-            (by rw [es, e5, hpkg]; exact hm)
-          refine ⟨?_, fun x hx => by
-            rw [es, hadd] at hx
-            rcases p4 with q | q <;> (rw [q] at hx; cases hx)⟩
-          rw [this, es, e5, hpkg]
-          show some _ = some p.size
-          rw [p6]; simp
+          have hopw : sw.operand = o := by rw [e5]; exact hop4
+          have fin : ∀ (hs'' : List Str) (v : Value),
+              s = { sw with pkg := { sw.pkg with additional := v } } → Emits v (hs''.flatten.length / 2) →
+              hs''.flatten.length = hs'.flatten.length → (∀ x, v ≠ .str x) →
+              (stmtBytes s).map List.length = some s.pkg.size ∧ NarrowString s := by
+            intro hs'' v es hm hfl hns
+            have := stmtBytes_len (s := s) (a := 0) (b := 0) (c := hs''.flatten.length / 2)
+              (by rw [es]; show Emits sw.pkg.opCode 0; rw [e5, hpkg]; show Emits p.opCode 0; rw [p1]; exact none_emits)
+              (by rw [es]; show Emits sw.pkg.postByte 0; rw [e5, hpkg]; show Emits p.postByte 0; rw [p2]; exact none_emits)
+              (by rw [es]; exact hm)
+            refine ⟨?_, fun x hx => by rw [es] at hx; exact absurd hx (hns x)⟩
+            rw [this, es]
+            show some _ = some sw.pkg.size
+            rw [e5, hpkg]
+            show some _ = some p.size
+            rw [p7, hfl]; simp
+          rcases p4 with ⟨q, qa⟩ | ⟨q, qa⟩
+          · have hcnt := tcount p5k hs' (.inl (p5.trans q))
+            obtain ⟨hs'', hev, es⟩ := evalList1_multiByte (hadd.trans q) tlist
+            rw [hopw] at hev
+            have hfl := evalElems_flatten_length (.inl rfl) hev hcnt.symm qa
+            exact fin hs'' _ es (multiByte_emits (by rw [hfl]; exact p6)) hfl (fun x hx => by cases hx)
+          · have hcnt := tcount p5k hs' (.inr (p5.trans q))
+            obtain ⟨hs'', hev, es⟩ := evalList1_multiWord (hadd.trans q) tlist
+            rw [hopw] at hev
+            have hfl := evalElems_flatten_length (.inr rfl) hev hcnt.symm qa
+            exact fin hs'' _ es (multiWord_emits (by rw [hfl]; exact p6)) hfl (fun x hx => by cases hx)
   | true =>
     -- PSHS / TFR ..., and the directives other than FCB / FDB: emitted as translated
-    have es : s = sf := fitWidth_skipped tfit (by rw [hrowf]; exact hsk)
+    have esw : sw = sf := fitWidth_skipped tfit (by rw [hrowf]; exact hsk)
+    subst esw
     have hplain : PlainShape o p := hplain0 hsk
     have hk : (s4.operand.kind == .relative) = false := by
       rw [hop4]
@@ -187,9 +226,15 @@ theorem C02_stmt_core {fs : Files} {lines : List Str} {a : Assembly} (h : assemb
         simp only [Bool.false_and, Bool.false_or] at hsk
         have := k2 hp hsk; rw [hk0] at this; cases this
     have hn4 : s4.pkg.needsRes = false := by rw [e4, e3]; exact hplain.needs
-    have e5 : sf = s4 :=
+    have e5 : sw = s4 :=
       fixOne_still hk hn4 (by rw [hop4]; exact hplain.noaddr) (by rw [hop4]; exact hplain.noexpr) tfix
     have hpkg := hfixed hplain.needs hplain.choices
+    -- (batch 8) no list here: the list pass changes nothing
+    have es : s = sw := by
+      have hnl := tnolist hsk
+      have := evalList1_keep st.t x5 (s := sw) (by rw [e5, hpkg]; exact hnl.1) (by rw [e5, hpkg]; exact hnl.2)
+      rw [this] at tlist
+      exact (Outcome.ok.inj tlist).symm
     obtain ⟨a', b', c', m1, m2, m3, hsum⟩ := hplain.bytes
     have := stmtBytes_len (s := s) (a := a') (b := b') (c := c')
       (by rw [es, e5, hpkg]; exact m1) (by rw [es, e5, hpkg]; exact m2) (by rw [es, e5, hpkg]; exact m3)
@@ -475,6 +520,7 @@ theorem C02_label_offset_field {fs : Files} {lines : List Str} {a : Assembly} (h
   have taddr := tr.addr
   have tfix := tr.hfix
   have tfit := tr.hfit
+  have tlist := tr.hlist
   have hplain0 := tr.plainShape
   generalize tr.s0 = s0 at *
   generalize tr.o = o at *
@@ -482,13 +528,16 @@ theorem C02_label_offset_field {fs : Files} {lines : List Str} {a : Assembly} (h
   generalize tr.s3 = s3 at *
   generalize tr.s4 = s4 at *
   generalize tr.sf = sf at *
+  generalize tr.sw = sw at *
+  generalize tr.x5 = x5 at *
   clear tr
   obtain ⟨sz3, mx3, pb3, hint3, fx3, e3⟩ := tpcr
   obtain ⟨ad4, e4⟩ := taddr
   obtain ⟨vf, ef⟩ := fixOne_same tfix
   obtain ⟨vw, ew⟩ := fitWidth_same tfit
-  have hnp : p.needsRes = true := by rw [ew, ef, e4, e3] at hn; exact hn
-  have hcp : p.choices = [] := by rw [ew, ef, e4, e3] at hc; exact hc
+  obtain ⟨vl, el⟩ := evalList1_same tlist
+  have hnp : p.needsRes = true := by rw [el, ew, ef, e4, e3] at hn; exact hn
+  have hcp : p.choices = [] := by rw [el, ew, ef, e4, e3] at hc; exact hc
   have e3' : s3 = mkTranslated s0 o p := tfixed (by show p.choices.isEmpty = true; rw [hcp]; rfl)
   have hrowf : sf.row = s0.row := by rw [ef, e4, e3']; rfl
   cases hsk : fitSkipped s0.row with
@@ -501,7 +550,13 @@ theorem C02_label_offset_field {fs : Files} {lines : List Str} {a : Assembly} (h
     rcases fixOne_field hss tfix with hnum | ⟨_, hn5, _, _⟩
     · cases hv : sf.pkg.additional with
       | numeric n hh m neg =>
-        obtain ⟨a', b', w, ha, hb, hw, hsz, _, _, es⟩ := fitWidth_numeric tfit (by rw [hrowf]; exact hsk) hv
+        obtain ⟨a', b', w, ha, hb, hw, hsz, _, _, es0⟩ := fitWidth_numeric tfit (by rw [hrowf]; exact hsk) hv
+        -- (batch 8) the list pass leaves a numeric field alone
+        have es := es0
+        rw [show sw = s from by
+          have := evalList1_numeric st.t x5 (s := sw) (by rw [es0]; rfl)
+          rw [this] at tlist
+          exact Outcome.ok.inj tlist] at es
         have ho : sf.pkg.opCode = p.opCode := by rw [ef, e4, e3']; rfl
         have hp : sf.pkg.postByte = p.postByte := by rw [ef, e4, e3']; rfl
         have hz : sf.pkg.size = p.size := by rw [ef, e4, e3']; rfl
@@ -706,11 +761,13 @@ theorem C02_org_final {fs : Files} {lines : List Str} {a : Assembly} (h : assemb
   have e4 : tr.s4 = tr.s3 := (assignAddrs_preset st.haddr).2 i _ _ tr.h3 tr.h4 hpre
   obtain ⟨_, ef⟩ := fixOne_same tr.hfix
   obtain ⟨_, ew⟩ := fitWidth_same tr.hfit
+  obtain ⟨_, el⟩ := evalList1_same tr.hlist
   have hfin : s.pkg.address = tr.p.address := by
+    have e0 := congrArg (fun x => x.pkg.address) el
     have e1 := congrArg (fun x => x.pkg.address) ew
     have e2 := congrArg (fun x => x.pkg.address) ef
-    simp only at e1 e2
-    rw [e1, e2, e4, ha3]
+    simp only at e0 e1 e2
+    rw [e0, e1, e2, e4, ha3]
   rw [hfin, hop, hadr]
   exact ⟨rfl, by rw [← hadr]; exact hnum⟩
 
